@@ -270,10 +270,24 @@ func zzSoftmaxSetup[E float32 | float64](v *zzverif.T) (op string, shape []int, 
 	op = v.CStr("op")
 	shape = v.CInts("shape")
 	rank := len(shape)
-	xs = zzverif.Syms[E](v, "x", zzverif.Prod(shape))
+	if v.Has("grid") && v.CBool("grid") {
+		// IEEE arithmetic on the grid {-200, 0, 200}: every exponential of a difference is exactly 0, 1 or +Inf,
+		// which puts rows far longer than the general IEEE proof within reach
+		xs = make([]E, zzverif.Prod(shape))
+		for i := range xs {
+			xs[i] = zzverif.Choose[E](v, "g"+string(rune('a'+i)), -200, 0, 200)
+		}
+	} else {
+		xs = zzverif.Syms[E](v, "x", zzverif.Prod(shape))
+	}
 	X = zzverif.NewTensor(xs, shape)
 	snap := v.Snapshot(X)
-	axis = v.IntIn("axis", -rank-1, rank)
+	grid := v.Has("grid") && v.CBool("grid")
+	if grid {
+		axis = v.CInt("axis") // concrete: nothing but the elements is symbolic in the long-row cases
+	} else {
+		axis = v.IntIn("axis", -rank-1, rank)
+	}
 	var attrs []*onnx.AttributeProto
 	if !v.CBool("default") {
 		attrs = append(attrs, zzAttrI("axis", int64(axis)))
@@ -284,7 +298,9 @@ func zzSoftmaxSetup[E float32 | float64](v *zzverif.T) (op string, shape []int, 
 		return
 	}
 	v.AssertUnchanged("C09.input-unmodified", X, snap)
-	axis = v.Concrete(axis)
+	if !grid {
+		axis = v.Concrete(axis)
+	}
 	if v.CBool("default") {
 		axis = -1
 	}
@@ -340,6 +356,25 @@ func c09SoftmaxIEEE[E float32 | float64](v *zzverif.T) {
 		y := at.(E)
 		if op == "Softmax" {
 			v.Assert("C09.softmax-finite-nonnegative", y == y && y >= 0 && y <= 1)
+			if v.Has("grid") && v.CBool("grid") && axis == len(shape)-1 {
+				// on the grid the exact answer is 1/(number of maxima of the row) at a maximum and 0 elsewhere
+				d := shape[axis]
+				row := f / d
+				m, cnt := xs[row*d], 0
+				for j := 1; j < d; j++ {
+					m = zzMaxOf(m, xs[row*d+j])
+				}
+				for j := 0; j < d; j++ {
+					if xs[row*d+j] == m {
+						cnt++
+					}
+				}
+				want := E(0)
+				if xs[f] == m {
+					want = 1 / E(cnt)
+				}
+				v.Assert("C09.softmax-on-the-grid-is-exact", y == want)
+			}
 		} else {
 			v.Assert("C09.logsoftmax-not-nan-nonpositive", y == y && y <= 0)
 		}
